@@ -68,7 +68,12 @@ def start_labels(b):
 def func_label(b):
     if b.get("anon") or b.get("nofl"):
         return None  # derived specs list the function symbol among the ordinary labels
-    return "F_" + b["f"] if b.get("f") and b.get("e") and b["k"] == "c" else None
+    return fsym_name(b["f"]) if b.get("f") and b.get("e") and b["k"] == "c" else None
+
+
+def fsym_name(f):
+    """name of the function symbol of function id f ('main' keeps its name for MAIN_NAME filters)"""
+    return f if f == "main" else "F_" + f
 
 
 # =============================================================================
@@ -505,8 +510,8 @@ def build(spec):
         for f, bl in funcs.items():
             ents = [b for b in bl if b.get("e")] or [bl[0]]
             u = gtirb.Node().uuid if False else __import__("uuid").uuid4()
-            fsym = add_symbol(m, "F_" + f, w.blocks[ents[0]["n"]])
-            w.syms["F_" + f] = fsym
+            fsym = add_symbol(m, fsym_name(f), w.blocks[ents[0]["n"]])
+            w.syms[fsym_name(f)] = fsym
             m.aux_data["functionEntries"].data[u] = {w.blocks[b["n"]] for b in ents}
             m.aux_data["functionBlocks"].data[u] = {w.blocks[b["n"]] for b in bl}
             m.aux_data["functionNames"].data[u] = fsym
